@@ -162,7 +162,8 @@ func (m *module) load(proj *Project) (starlark.StringDict, error) {
 	t, builtins, err := m.env(proj)
 	if err != nil {
 		proj.events.ModuleLoadFailed(m.label, err)
-		return nil, err
+		// Record the failure, so that the other loaders of this module are woken up with it.
+		return m.done(nil, err)
 	}
 
 	v, err := m.done(starlark.ExecFile(t, m.path, nil, builtins))
